@@ -55,7 +55,7 @@ def validateDomainForServerFixed (host : Str) (customDomains : List Str) (subDom
 
 /-- which of the two the tree currently implements; the engine and `C18.domain_*` follow it.
     Set to `true` after the repair (lower-casing both sides) has been committed to /repo. -/
-def domainCheckIsFixed : Bool := false
+def domainCheckIsFixed : Bool := true
 
 def validateDomainCurrent (host : Str) (customDomains : List Str) (subDomain : Str) : Option DomErr :=
   if domainCheckIsFixed then validateDomainForServerFixed host customDomains subDomain
